@@ -24,12 +24,16 @@ CONSTANTS BlockLo, BlockHi,     \* the blocks of days to prove Gregorian on: blo
           BlockSize,            \* from 0001-01-01 + b*BlockSize on
           SplitRange            \* Splitters on 0..SplitRange (per block: a slice of it)
 VARIABLE b
-Init == b \in BlockLo..BlockHi
-Next == UNCHANGED b
+\* the blocks are visited along a binary tree so that TLC's workers share them
+Init == b = BlockLo
+Next == \E k \in 1..2 : 2 * (b - BlockLo) + k + BlockLo <= BlockHi /\ b' = 2 * (b - BlockLo) + k + BlockLo
 
 \* ---- Gregorian -------------------------------------------------------------------------------------
-SundaysUpTo(n, j) == Cardinality({k \in 1..j : Weekday(n - j + k) = 0})
-MondaysUpTo(n, j) == Cardinality({k \in 1..j : Weekday(n - j + k) = 1})
+\* %U / %W count the Sundays / Mondays of the year so far: 1 January counts itself, every later day adds itself to
+\* the count of the day before
+CountLaw(Week(_, _), first, n, j, w) ==
+  IF j = 1 THEN Week(j, w) = (IF w = first THEN 1 ELSE 0)
+  ELSE Week(j, w) = Week(j - 1, (w + 6) % 7) + (IF w = first THEN 1 ELSE 0)
 DayLaw(n) ==
   LET c == CivilFromDays(n)
       j == DayOfYear(c.y, c.m, c.d)
@@ -43,7 +47,7 @@ DayLaw(n) ==
      /\ j = n - DaysFromCivil(c.y, 1, 1) + 1 /\ j \in 1..DaysInYear(c.y)
      /\ w \in 0..6 /\ Weekday(n + 1) = (w + 1) % 7
      /\ (n = 0 => w = 4) /\ (n = -1 => w = 3)     \* "Thursday, January  1, 1970", "Wednesday, December 31, 1969"
-     /\ WeekU(j, w) = SundaysUpTo(n, j) /\ WeekW(j, w) = MondaysUpTo(n, j)
+     /\ CountLaw(WeekU, 0, n, j, w) /\ CountLaw(WeekW, 1, n, j, w)
      /\ (InYears(thu) => WeekV(c.y, j, w) = ((DayOfYear(ct.y, ct.m, ct.d) - 1) \div 7) + 1)
      /\ WeekV(c.y, j, w) \in 1..53 /\ WeekU(j, w) \in 0..53 /\ WeekW(j, w) \in 0..53
 Block == {n \in (MinDay + b * BlockSize)..(MinDay + b * BlockSize + BlockSize - 1) : InYears(n)}
@@ -51,8 +55,11 @@ Gregorian == \A n \in Block : DayLaw(n)
 
 \* ---- Texts (on the days of the case space and a slice of small days) -------------------------------------------
 LawSods == {0, 1, 59, 60, 3599, 3600, 43200, 85636, 86398, 86399}
-Mine(S) == {n \in S : n % (BlockHi - BlockLo + 1) = (b - BlockLo)}        \* this block's share of a set of integers
-SmallDays == Mine(-24000..24000)
+\* this block's share of a set of integers / of a range (every K-th element, K the number of blocks)
+K == BlockHi - BlockLo + 1
+Mine(S) == {n \in S : n % K = (b - BlockLo)}
+MineRange(lo, hi) == {lo + (b - BlockLo) + K * i : i \in 0..((hi - lo - (b - BlockLo)) \div K)}
+SmallDays == {n \in MineRange(-24000, 24000) : n % 7 = 0 \/ (n > -1000 /\ n < 1000) \/ n > 23900 \/ n < -23900}
 TextLaw(n, s) ==
   /\ (n >= 0 => NatText(n, s) = NatText2(n, s))
   /\ (n < 0 => AbsText(n, s) = (IF s = 0 THEN NatText2(-n, 0) ELSE NatText2(-n - 1, 86400 - s)))
@@ -100,6 +107,15 @@ Examples ==
   /\ UnitText(16675, 48801, 123456789, 9) = "1440768801123456789"
   /\ UnitText(-1, 86399, 1, 9) = "-999999999" /\ UnitText(-1, 86398, 999999999, 9) = "-1000000001"
   /\ UnitText(0, 0, 123, 9) = "123" /\ UnitText(-1, 0, 0, 3) = "-86400000"
+  /\ HalfText(0, 0) = "0.5" /\ HalfText(-1, 86399) = "-0.5" /\ HalfText(-1, 86398) = "-1.5" /\ HalfText(0, 1) = "1.5"
+  /\ HalfText(-14289, 1709) = "-1234567890.5"
+  \* the datediff examples of the reference and of the function help
+  /\ LET d1 == DaysFromCivil(2001, 6, 1)  d2 == DaysFromCivil(2002, 8, 15)  d3 == DaysFromCivil(2020, 1, 1)  d4 == DaysFromCivil(2023, 5, 15) IN
+       /\ DateDiff("y", d1, d2) = {1} /\ DateDiff("m", d1, d2) = {14} /\ DateDiff("d", d1, d2) = {440}
+       /\ DateDiff("ym", d1, d2) = {2} /\ DateDiff("yd", d1, d2) = {75} /\ DateDiff("md", d1, d2) = {14}
+       /\ DateDiff("y", d3, d4) = {3} /\ DateDiff("m", d3, d4) = {40} /\ DateDiff("d", d3, d4) = {1230}
+       /\ DateDiff("ym", d3, d4) = {4} /\ DateDiff("yd", d3, d4) = {134} /\ DateDiff("md", d3, d4) = {14}
+       /\ DateDiff("d", d2, d1) = {-440} /\ DateDiff("y", d4, d3) = {-3}
   /\ InNsRange(106751, 85635) /\ ~InNsRange(106751, 85636) /\ InNsRange(-106752, 764) /\ ~InNsRange(-106752, 763)
   /\ IsLeap(2000) /\ ~IsLeap(1900) /\ IsLeap(2024) /\ ~IsLeap(2023) /\ ~IsLeap(2100) /\ IsLeap(4) /\ ~IsLeap(1)
   /\ MinDay = -719162 /\ MaxDay = 2932896
@@ -126,7 +142,20 @@ SplitExamples ==
   /\ HmsText(0, 5000, "") = "01:23:20" /\ HmsText(0, 5000, ".000000") = "01:23:20.000000"
   /\ ShortDhms(0, 22920) = "6h22m" /\ ShortDhms(0, 28800) = "8h" /\ ShortDhms(0, 46800) = "13h" /\ ShortDhms(0, 840) = "14m"
   /\ ShortUnambiguous(0, 22920) /\ ~ShortUnambiguous(1, 1) /\ DurText(1, 5, 68000) = "500000"
-Splitters == SplitExamples /\ \A v \in Mine(0..SplitRange) : SplitLaw(v)
+\* every integer up to SplitRange, and the neighbourhoods of whole days up to the end of 32 bits
+WholeDays == {k * 86400 + e : k \in (2..30) \cup {99, 100, 101, 999, 1000, 1001, 11574, 24854}, e \in -61..61}
+Splitters == SplitExamples /\ \A v \in MineRange(0, SplitRange) \cup Mine(WholeDays) : SplitLaw(v)
 
-Laws == Gregorian /\ Texts /\ ParseFormat /\ Examples /\ Splitters
+\* datediff: the units hang together, whichever admitted reading is taken
+DiffLaw(n1, n2) ==
+  /\ DateDiff("d", n1, n2) = {n2 - n1}
+  /\ \A u \in {"y", "m", "ym", "yd", "md"} : DateDiff(u, n1, n2) # {} /\ DateDiff(u, n2, n1) = {-v : v \in DateDiff(u, n1, n2)}
+  /\ (n1 <= n2 =>
+        /\ \A k \in DateDiff("m", n1, n2) : k >= 0 /\ k \div 12 \in DateDiff("y", n1, n2) /\ k % 12 \in DateDiff("ym", n1, n2)
+        /\ \A v \in DateDiff("yd", n1, n2) : v \in 0..366
+        /\ \A v \in DateDiff("md", n1, n2) : v \in 0..30
+        /\ (n1 = n2 => \A u \in {"y", "m", "ym", "yd", "md"} : DateDiff(u, n1, n2) = {0}))
+DateDiffs == \A n \in Mine(Days) : \A i \in 1..Len(Deltas) : InYears(n + Deltas[i]) => DiffLaw(n, n + Deltas[i])
+
+Laws == DateDiffs /\ Gregorian /\ Texts /\ ParseFormat /\ Examples /\ Splitters
 =============================================================================
